@@ -37,7 +37,7 @@ def gen_spec(rng: random.Random, *, allow_wait: bool = True, allow_collect: bool
             want = [rng.choice(acc) for _ in range(rng.randint(2, 3))]
             sc.append(["collect", sorted(want)] + ([rng.choice(["b01", "b02"])] if rng.random() < 0.3 else []))
         if allow_wait and rng.random() < 0.2:
-            wt = rng.choice(unconsumed + [3]) if (unconsumed or True) else 3
+            wt = rng.choice([3, 11])  # never produced by steps: only external sends resolve waits
             reqk = rng.choice([None, None, 1, 2])
             sc.append(["wait", wt, reqk, rng.choice([None, 5, 20]), rng.choice(["w01", "w02", None]),
                        rng.choice([None, 2]), rng.choice(["swallow", "raise"])])
@@ -133,7 +133,7 @@ def gen_spec(rng: random.Random, *, allow_wait: bool = True, allow_collect: bool
         for _ in range(rng.choice([0, 0, 0, 1, 2])):
             r = rng.random()
             if r < 0.6:
-                t = rng.choice(PLAIN + [3, 3])
+                t = rng.choice(PLAIN + [3, 3, 11, 11])
                 spec["externals"].append({"op": "send", "ty": t, "k": rng.choice([None, 1, 2]), "step": None,
                                           "after_quiet": rng.randint(0, 3)})
             elif r < 0.8:
@@ -143,3 +143,108 @@ def gen_spec(rng: random.Random, *, allow_wait: bool = True, allow_collect: bool
     if rng.random() < 0.1:
         spec["start_k"] = rng.choice([1, 2])
     return spec
+
+
+# --------------------------------------------------------------------------
+# targeted families (the general generator rarely lines these up)
+
+
+def gen_fanin_spec(rng: random.Random) -> dict:
+    """start fans N events into a collecting step with few workers: queued events,
+    collect re-runs on stale snapshots, out-of-order completions"""
+    n = rng.randint(3, 8)
+    nw = rng.randint(1, 3)
+    want = rng.randint(2, 3)
+    two_types = rng.random() < 0.4
+    sends = []
+    for i in range(n):
+        sends.append(["send", 6 if (two_types and i % 2) else 5, None, rng.choice([None, 1, 2])])
+    start = {"name": "s00", "accepts": [0], "nw": 1, "retry": None,
+             "script": ([["gate"]] if rng.random() < 0.3 else []) + sends + [["ret", "none"]]}
+    exp = sorted(([5, 6] * 2)[:want]) if two_types else [5] * want
+    coll_script: list = []
+    if rng.random() < 0.8:
+        coll_script.append(["gate"])
+    coll_script.append(["collect", exp] + ([rng.choice(["b01", "b02"])] if rng.random() < 0.2 else []))
+    if rng.random() < 0.3:
+        coll_script.append(["gate"])
+    coll_script.append(["ret", rng.choice(["7", "7", "none", "stop"])])
+    coll = {"name": "s03", "accepts": [5, 6] if two_types else [5], "nw": nw, "retry": None, "script": coll_script}
+    sink = {"name": "s05", "accepts": [7], "nw": rng.randint(1, 2), "retry": None,
+            "script": ([["gate"]] if rng.random() < 0.5 else []) + [["ret", rng.choice(["none", "stop"])]]}
+    steps = [start, coll, sink]
+    rng.shuffle(steps)
+    return {"steps": steps, "externals": []}
+
+
+def gen_retry_spec(rng: random.Random) -> dict:
+    """failing steps with budgets, delays and catch_error handlers on one lineage"""
+    n_fail = rng.randint(1, 3)
+    wait = rng.choice([0, 0, 2, 5])
+    pol = rng.choice([{"kind": "attempts", "n": rng.randint(1, 4), "wait": wait},
+                      {"kind": "chain", "n": rng.randint(2, 5), "waits": [3, 1, 2]},
+                      {"kind": "legacy", "n": rng.randint(1, 3), "wait": rng.choice([0, 1])}, None])
+    worker = {"name": "s02", "accepts": [5], "nw": rng.randint(1, 3), "retry": pol,
+              "script": ([["gate"]] if rng.random() < 0.4 else []) +
+                        [rng.choice([["fail_until", n_fail, rng.randint(1, 9)], ["fail_always", rng.randint(1, 9)],
+                                     ["fail_on_k", 2, rng.randint(1, 9)]]), ["ret", rng.choice(["6", "stop", "none"])]]}
+    second = {"name": "s04", "accepts": [6], "nw": 1, "retry": rng.choice([None, {"kind": "attempts", "n": 2, "wait": 0}]),
+              "script": [rng.choice([["fail_always", rng.randint(1, 9)], ["fail_until", 1, 3], ["yield"]]), ["ret", rng.choice(["stop", "none"])]]}
+    start = {"name": "s00", "accepts": [0], "nw": 1, "retry": None,
+             "script": [["send", 5, None, rng.choice([None, 1, 2])] for _ in range(rng.randint(1, 3))] + [["ret", "none"]]}
+    steps = [start, worker, second]
+    hk = rng.random()
+    if hk < 0.7:
+        h1 = {"name": "s12", "accepts": [4], "role": "handler", "for_steps": rng.choice([None, ["s02"], ["s02", "s04"]]),
+              "max_rec": rng.randint(1, 3),
+              "script": ([["gate"]] if rng.random() < 0.3 else []) + [["ret", rng.choice(["5", "6", "stop", "none", "5"])]]}
+        steps.append(h1)
+        if h1["for_steps"] is not None and rng.random() < 0.6:
+            steps.append({"name": "s13", "accepts": [4], "role": "handler", "for_steps": None, "max_rec": rng.randint(1, 2),
+                          "script": [["ret", rng.choice(["5", "6", "stop"])]]})
+    rng.shuffle(steps)
+    spec: dict[str, Any] = {"steps": steps, "externals": []}
+    if rng.random() < 0.15:
+        spec["timeout"] = rng.choice([1, 3, 8])
+    if rng.random() < 0.2:
+        spec["externals"].append({"op": "snapshot", "after_quiet": rng.randint(0, 3)})
+    return spec
+
+
+def gen_wait_spec(rng: random.Random) -> dict:
+    """steps suspended in wait_for_event; responses (duplicates, non-matching, early/late) arrive from outside"""
+    reqk = rng.choice([None, 1, 2])
+    timeout = rng.choice([None, 5, 20])
+    waiter = {"name": "s02", "accepts": [5], "nw": rng.randint(1, 2), "retry": None,
+              "script": ([["gate"]] if rng.random() < 0.3 else []) +
+                        [["wait", rng.choice([3, 11]), reqk, timeout, rng.choice(["w01", "w02"]), rng.choice([None, 2]),
+                          rng.choice(["swallow", "raise"])], ["ret", rng.choice(["6", "stop", "none"])]]}
+    other = {"name": "s04", "accepts": [6, 3] if rng.random() < 0.3 else [6], "nw": 1, "retry": None,
+             "script": [["ret", rng.choice(["stop", "none"])]]}
+    start = {"name": "s00", "accepts": [0], "nw": 1, "retry": None,
+             "script": [["send", 5, rng.choice([None, "s02"]), rng.choice([None, 1])] for _ in range(rng.randint(1, 2))] + [["ret", "none"]]}
+    steps = [start, waiter, other]
+    rng.shuffle(steps)
+    ext = []
+    for _ in range(rng.randint(0, 4)):
+        ext.append({"op": "send", "ty": rng.choice([3, 3, 11, 11, 6]), "k": rng.choice([None, 1, 2]),
+                    "step": rng.choice([None, None, None, "s02", "s04"]), "after_quiet": rng.randint(0, 4)})
+    if rng.random() < 0.2:
+        ext.append({"op": "snapshot", "after_quiet": rng.randint(0, 4)})
+    return {"steps": steps, "externals": ext}
+
+
+_general = gen_spec
+
+
+def gen_spec(rng: random.Random, **kw: Any) -> dict:  # type: ignore[no-redef]
+    r = rng.random()
+    if kw.get("family") == "general" or r < 0.55:
+        kw.pop("family", None)
+        return _general(rng, **kw)
+    fam = kw.get("family")
+    if fam == "fanin" or (fam is None and r < 0.70):
+        return gen_fanin_spec(rng)
+    if fam == "retry" or (fam is None and r < 0.85):
+        return gen_retry_spec(rng)
+    return gen_wait_spec(rng)
